@@ -162,6 +162,35 @@ pub fn drive_lerp(seed: u64, full8: bool, out: &str) -> Value {
         put(if ok { json!({"ev": "lerps", "ty": "i64", "ma": ia, "mb": ib, "s": s.min(50), "r": r}) } else { json!({"ev": "lerps", "ty": "i64", "ma": ia, "mb": ib, "s": s.min(50), "panic": 1}) }, &mut f);
         recs += 2; evals += 34;
     }
+    // the limits of every wide type that are f32 numbers (i32::MIN, i64::MIN = -2048 * 2^52, 4095 * 2^20 just below
+    // u32::MAX, ...): all pairs of boundary mantissas, x = k/16; exact, and never a panic
+    macro_rules! boundary_scaled { ($t:ty, $name:expr, $s:expr, $ms:expr) => {
+        for &ma in $ms.iter() { for &mb in $ms.iter() {
+            let sc = |m: i64| ((m as i128) << $s) as $t;
+            let mut r = vec![]; let mut ok = true;
+            for &(n, d) in &xs16 { match catch_unwind(AssertUnwindSafe(|| sc(ma).lerp(&sc(mb), n as f32 / d as f32))) { Ok(v) => r.push(((v as i128 * 16) >> $s) as i64), Err(_) => { ok = false; break; } } }
+            put(if ok { json!({"ev": "lerps", "ty": $name, "ma": ma, "mb": mb, "s": $s, "r": r}) } else { json!({"ev": "lerps", "ty": $name, "ma": ma, "mb": mb, "s": $s, "panic": 1}) }, &mut f);
+            recs += 1; evals += 17;
+        } }
+    } }
+    let signed_ms: [i64; 7] = [-2048, -2047, -1, 0, 1, 2046, 2047];
+    let unsigned_ms: [i64; 6] = [0, 1, 2, 2048, 4094, 4095];
+    boundary_scaled!(i32, "i32", 20, signed_ms);
+    boundary_scaled!(i64, "i64", 52, signed_ms);
+    boundary_scaled!(u32, "u32", 20, unsigned_ms);
+    boundary_scaled!(u64, "u64", 52, unsigned_ms);
+    // wide ranges at the f32 neighbours of x = 0 and x = 1: a = ma * 2^24, b = mb * 2^24, x = n / 2^24 (raw results)
+    let ns: Vec<i64> = vec![0, 1, 2, 3, 1 << 23, (1 << 24) - 3, (1 << 24) - 2, (1 << 24) - 1, 1 << 24];
+    macro_rules! wide_edge { ($t:ty, $name:expr) => {
+        for &ma in [0i64, 1, 2, 3, 100, 127].iter() { for &mb in [0i64, 1, 2, 3, 100, 127].iter() {
+            let (a, b) = ((ma << 24) as $t, (mb << 24) as $t);
+            let mut r = vec![]; let mut ok = true;
+            for &n in &ns { match catch_unwind(AssertUnwindSafe(|| a.lerp(&b, n as f32 / 16777216.0))) { Ok(v) => r.push(v as i64), Err(_) => { ok = false; break; } } }
+            put(if ok { json!({"ev": "lerpw", "ty": $name, "ma": ma, "mb": mb, "ns": ns, "r": r}) } else { json!({"ev": "lerpw", "ty": $name, "ma": ma, "mb": mb, "panic": 1}) }, &mut f);
+            recs += 1; evals += ns.len() as u64;
+        } }
+    } }
+    wide_edge!(i32, "i32"); wide_edge!(u32, "u32"); wide_edge!(i64, "i64"); wide_edge!(u64, "u64"); wide_edge!(usize, "usize");
     // float types on small integers and dyadic x: exact
     for _ in 0..(if full8 { 4000 } else { 400 }) {
         let (mut a, mut b) = (rng.below(8192) as i64 - 4096, rng.below(8192) as i64 - 4096);
